@@ -85,11 +85,23 @@ func (r *rng) smallParam(edge int) string {
 	return fmt.Sprint(r.n(edge + 2))
 }
 
+// pieces of extended grapheme clusters: whole clusters, and marks, joiners, selectors and
+// regional indicators on their own (as they arrive when a sequence or a read separates them from their base)
+var clusterBits = []string{"e\u0301", "a\u0308\u0323", "\U0001f468\u200d\U0001f469\u200d\U0001f467", "\U0001f469\U0001f3fd",
+	"\U0001f1fa\U0001f1f8", "\u263a\ufe0f", "1\ufe0f\u20e3", "\u1100\u1161\u11a8", "\u0e01\u0e33",
+	"\u0301", "\u0308", "\u200d", "\ufe0f", "\ufe0e", "\U0001f1fa", "\U0001f3fd", "\u20e3", "\u0e33", "\u1161", "\u200d\U0001f467",
+	"\u4e16\u0301", "\U0001f439\u200d", "\u0300\u0301\u0302"}
+
+// clusterText: when set, text also contains the pieces above (profiles for grapheme mode)
+var clusterText bool
+
 func (r *rng) text(wide bool, maxLen int) string {
 	n := 1 + r.n(maxLen)
 	s := ""
 	for i := 0; i < n; i++ {
 		switch {
+		case clusterText && r.chance(1, 4):
+			s += clusterBits[r.n(len(clusterBits))]
 		case wide && r.chance(1, 4):
 			s += wideRunes[r.n(len(wideRunes))]
 		case r.chance(1, 10):
@@ -99,6 +111,14 @@ func (r *rng) text(wide bool, maxLen int) string {
 		}
 	}
 	return s
+}
+
+// oscPayload: mostly short, sometimes longer than any buffer an implementation might cap it with
+func (r *rng) oscPayload(wide bool) string {
+	if r.chance(1, 10) {
+		return strings.Repeat(r.text(wide, 12), 40+r.n(300))
+	}
+	return r.text(wide, 6)
 }
 
 func (r *rng) sgr() string {
@@ -165,6 +185,7 @@ type profile struct {
 	cutAny   bool // cut chunks anywhere (inside sequences)
 	step     bool // one item per feed, for step-mode comparison
 	prefill  bool // start with text on the screen
+	clusters bool // text with pieces of extended grapheme clusters (for grapheme mode; not modelled)
 	minBytes int  // keep adding items until the stream is at least this long (reads larger than the 4096-byte buffer)
 	maxItems int
 	mask     int // observation mask written into the case header
@@ -363,7 +384,7 @@ func (r *rng) item(p profile, w, h int) (int, string) {
 		}
 		switch r.n(6) {
 		case 0:
-			return kind, "\x1b]" + r.pick("0", "2", "6", "7", "4", "52", "", "10", "112", "9999999999999999999999", "18446744073709551616", "18446744073709551618", "18446744073709551622", "18446744073709551623", "4294967296", "4294967298", "00", "07") + ";" + r.text(p.wide, 6) + r.pick("\x07", "\x1b\\")
+			return kind, "\x1b]" + r.pick("0", "2", "6", "7", "4", "52", "", "10", "112", "9999999999999999999999", "18446744073709551616", "18446744073709551618", "18446744073709551622", "18446744073709551623", "4294967296", "4294967298", "00", "07") + ";" + r.oscPayload(p.wide) + r.pick("\x07", "\x1b\\")
 		case 1:
 			if r.chance(1, 2) {
 				// payloads with ESC, backslash and BEL inside, ending in an odd or even number of ESC bytes
@@ -456,6 +477,10 @@ func (r *rng) genCase(id string, p profile, mode, grid int) genCase {
 		c.ops = append(c.ops, genOp{kind: 110, data: append([]byte(nil), stream[prev:]...)})
 		stream = nil
 		cuts = nil
+	}
+	if r.chance(1, 2) {
+		// autowrap is off by default in this emulator: switch it on in half of the cases
+		c.ops = append(c.ops, genOp{kind: 110, data: []byte("\x1b[?7h"), label: kMode})
 	}
 	if p.prefill {
 		// text on most rows, several styles, so that erase/scroll/resize have content to act on
@@ -600,22 +625,24 @@ var allKinds = weights(kText, 30, kC0Move, 6, kOtherC0, 2, kCsiMove, 12, kErase,
 	kMode, 5, kAltScr, 2, kQuery, 4, kKbd, 4, kString, 4, kResize, 6)
 
 var profiles = map[string]profile{
-	"mixed":   {wide: true, cutAny: true, maxItems: 14, weights: allKinds},
-	"narrow":  {wide: false, maxItems: 14, weights: allKinds},
-	"hostile": {wide: true, cutAny: true, maxItems: 16, mask: 1<<1 | 1<<2, weights: weights(kText, 20, kC0Move, 6, kOtherC0, 4, kCsiMove, 10, kErase, 8, kScroll, 8, kMargins, 4, kSgr, 6, kMode, 4, kAltScr, 2, kQuery, 2, kKbd, 2, kString, 6, kResize, 8, kHostile, 25)},
-	"stepall": {wide: true, step: true, prefill: true, maxItems: 12, weights: allKinds},
-	"c03":     {wide: true, step: true, prefill: true, maxItems: 12, weights: weights(kText, 55, kC0Move, 8, kCsiMove, 20, kSgr, 6, kMode, 8, kMargins, 3)},
-	"c04":     {wide: true, step: true, prefill: true, maxItems: 12, weights: weights(kText, 10, kC0Move, 30, kCsiMove, 45, kMargins, 10, kMode, 5)},
-	"c05":     {wide: true, step: true, prefill: true, maxItems: 10, weights: weights(kText, 15, kCsiMove, 22, kErase, 45, kSgr, 10, kC0Move, 5, kMargins, 8)},
-	"c06":     {wide: true, step: true, prefill: true, maxItems: 12, weights: weights(kText, 12, kCsiMove, 12, kScroll, 38, kMargins, 12, kC0Move, 12, kSgr, 8, kErase, 10)},
-	"c07":     {wide: true, step: true, prefill: true, maxItems: 12, weights: weights(kText, 25, kSgr, 45, kErase, 15, kCsiMove, 10, kScroll, 5)},
-	"c09":     {wide: true, step: true, prefill: false, maxItems: 12, weights: weights(kText, 35, kString, 55, kOtherC0, 10)},
-	"c14":     {wide: true, cutAny: true, maxItems: 14, mask: 1<<1 | 1<<2 | 1<<4 | 1<<5, weights: weights(kText, 20, kCsiMove, 20, kQuery, 30, kKbd, 10, kAltScr, 5, kSgr, 5, kMode, 5, kString, 5)},
-	"c17":     {wide: true, step: true, prefill: true, maxItems: 18, weights: weights(kText, 22, kMode, 28, kAltScr, 20, kCsiMove, 8, kKbd, 16, kMargins, 4, kSgr, 4, kErase, 3)},
-	"c18":     {wide: true, step: true, prefill: true, maxItems: 10, weights: weights(kText, 25, kResize, 40, kCsiMove, 15, kMargins, 10, kC0Move, 5, kAltScr, 5)},
-	"c19":     {wide: false, step: true, maxItems: 60, mask: 1<<1 | 1<<2 | 1<<4 | 1<<5, weights: weights(kKbd, 80, kAltScr, 10, kText, 5, kQuery, 5)},
-	"c08long": {wide: true, cutAny: true, maxItems: 14, minBytes: 4300, weights: weights(kText, 60, kC0Move, 8, kCsiMove, 8, kErase, 4, kScroll, 3, kSgr, 8, kMode, 2, kQuery, 3, kString, 4)},
-	"c08":     {wide: true, cutAny: true, maxItems: 14, weights: weights(kText, 35, kC0Move, 8, kOtherC0, 2, kCsiMove, 12, kErase, 10, kScroll, 6, kMargins, 3, kSgr, 10, kMode, 5, kAltScr, 2, kQuery, 4, kKbd, 2, kString, 6)},
+	"mixed":     {wide: true, cutAny: true, maxItems: 14, weights: allKinds},
+	"narrow":    {wide: false, maxItems: 14, weights: allKinds},
+	"hostile":   {wide: true, cutAny: true, maxItems: 16, mask: 1<<1 | 1<<2, weights: weights(kText, 20, kC0Move, 6, kOtherC0, 4, kCsiMove, 10, kErase, 8, kScroll, 8, kMargins, 4, kSgr, 6, kMode, 4, kAltScr, 2, kQuery, 2, kKbd, 2, kString, 6, kResize, 8, kHostile, 25)},
+	"stepall":   {wide: true, step: true, prefill: true, maxItems: 12, weights: allKinds},
+	"c03":       {wide: true, step: true, prefill: true, maxItems: 12, weights: weights(kText, 55, kC0Move, 8, kCsiMove, 20, kSgr, 6, kMode, 8, kMargins, 3)},
+	"c04":       {wide: true, step: true, prefill: true, maxItems: 12, weights: weights(kText, 10, kC0Move, 30, kCsiMove, 45, kMargins, 10, kMode, 5)},
+	"c05":       {wide: true, step: true, prefill: true, maxItems: 10, weights: weights(kText, 15, kCsiMove, 22, kErase, 45, kSgr, 10, kC0Move, 5, kMargins, 8)},
+	"c06":       {wide: true, step: true, prefill: true, maxItems: 12, weights: weights(kText, 12, kCsiMove, 12, kScroll, 38, kMargins, 12, kC0Move, 12, kSgr, 8, kErase, 10)},
+	"c07":       {wide: true, step: true, prefill: true, maxItems: 12, weights: weights(kText, 25, kSgr, 45, kErase, 15, kCsiMove, 10, kScroll, 5)},
+	"c09cut":    {wide: true, cutAny: true, maxItems: 12, weights: weights(kText, 35, kString, 55, kOtherC0, 10)},
+	"c09":       {wide: true, step: true, prefill: false, maxItems: 12, weights: weights(kText, 35, kString, 55, kOtherC0, 10)},
+	"c14":       {wide: true, cutAny: true, maxItems: 14, mask: 1<<1 | 1<<2 | 1<<4 | 1<<5, weights: weights(kText, 20, kCsiMove, 20, kQuery, 30, kKbd, 10, kAltScr, 5, kSgr, 5, kMode, 5, kString, 5)},
+	"c17":       {wide: true, step: true, prefill: true, maxItems: 18, weights: weights(kText, 22, kMode, 28, kAltScr, 20, kCsiMove, 8, kKbd, 16, kMargins, 4, kSgr, 4, kErase, 3)},
+	"c18":       {wide: true, step: true, prefill: true, maxItems: 10, weights: weights(kText, 25, kResize, 40, kCsiMove, 15, kMargins, 10, kC0Move, 5, kAltScr, 5)},
+	"c19":       {wide: false, step: true, maxItems: 60, mask: 1<<1 | 1<<2 | 1<<4 | 1<<5, weights: weights(kKbd, 80, kAltScr, 10, kText, 5, kQuery, 5)},
+	"gclusters": {wide: true, cutAny: true, clusters: true, maxItems: 14, weights: weights(kText, 45, kC0Move, 8, kCsiMove, 14, kErase, 8, kScroll, 4, kMargins, 2, kSgr, 12, kMode, 4, kAltScr, 1, kResize, 2)},
+	"c08long":   {wide: true, cutAny: true, maxItems: 14, minBytes: 4300, weights: weights(kText, 60, kC0Move, 8, kCsiMove, 8, kErase, 4, kScroll, 3, kSgr, 8, kMode, 2, kQuery, 3, kString, 4)},
+	"c08":       {wide: true, cutAny: true, maxItems: 14, weights: weights(kText, 35, kC0Move, 8, kOtherC0, 2, kCsiMove, 12, kErase, 10, kScroll, 6, kMargins, 3, kSgr, 10, kMode, 5, kAltScr, 2, kQuery, 4, kKbd, 2, kString, 6)},
 }
 
 // genCases writes n cases of the profile for both buffer kinds.
@@ -626,6 +653,7 @@ func genCases(out io.Writer, prof string, seed uint64, n int, kinds []int, modes
 	if !ok {
 		panic("unknown profile " + prof)
 	}
+	clusterText = p.clusters
 	for i := 0; i < n; i++ {
 		r := &rng{s: seed*1000003 + uint64(i)*7919}
 		base := r.genCase("", p, 0, 0)
